@@ -336,7 +336,8 @@ class Expander(object):
 
     # ------------------------------------------------------------ resolution
     def is_new(self, short_qual):
-        return self.ref is not None and short_qual not in self.ref
+        return self.ref is not None and short_qual not in self.ref and \
+            not short_qual.startswith("__")
 
     def _short(self, qual):
         p = self.model.pkg + "."
